@@ -185,6 +185,14 @@ func (g *gen) drawOp(kinds []string) opT {
 		op.P = g.pathFor('f', 90)
 		op.Off = g.intn(1<<20, "off")
 		op.Len = g.intn(1<<20, "ln")
+	case "oio":
+		// I/O by inode on a file whose name is gone while the kernel still references it (open-unlinked file)
+		L := g.leaf
+		op.Sel = g.intn(8, "osel")
+		op.Amt = g.intn(4, "osub") // 0 getattr, 1 read, 2 write, 3 truncate
+		op.Off = rapid.SampledFrom([]int{0, 0, 3, L - 1, L}).Draw(t, g.lbl("ooff"))
+		op.Len = rapid.SampledFrom([]int{0, 1, 7, L, L + 1}).Draw(t, g.lbl("oln"))
+		op.Seed = rapid.Uint64().Draw(t, g.lbl("oseed"))
 	case "rename":
 		op.P = g.pathFor('a', 85)
 		switch r := g.intn(100, "dst"); {
@@ -246,7 +254,7 @@ func simApply(m *model, op opT) {
 }
 
 var (
-	kindsMixed  = weighted(map[string]int{"create": 14, "mkdir": 12, "write": 12, "trunc": 5, "rename": 15, "unlink": 6, "rmdir": 5, "lookup": 6, "getattr": 3, "read": 5, "readdir": 3, "forget": 12})
+	kindsMixed  = weighted(map[string]int{"create": 14, "mkdir": 12, "write": 12, "trunc": 5, "rename": 15, "unlink": 6, "rmdir": 5, "lookup": 6, "getattr": 3, "read": 5, "readdir": 3, "forget": 12, "oio": 6})
 	kindsInodes = weighted(map[string]int{"create": 16, "mkdir": 16, "rename": 14, "unlink": 12, "rmdir": 12, "lookup": 8, "forget": 22})
 )
 
@@ -412,6 +420,66 @@ func (x *exec) step(op opT) (string, error) {
 		}
 		return "fs:OK", nil
 
+	case "oio":
+		var cands []fuseops.InodeID
+		for _, ino := range k.heldList("orphan") {
+			if h := k.held[ino]; h != nil && h.orphan && !h.dir && k.orphNode[ino] != nil {
+				cands = append(cands, ino)
+			}
+		}
+		if len(cands) == 0 {
+			return "skip", nil
+		}
+		ino := cands[op.Sel%len(cands)]
+		node := k.orphNode[ino]
+		x.count("io_on_unlinked_inode")
+		switch op.Amt {
+		case 0:
+			return "fs:OK", k.getattr(ino, node)
+		case 1:
+			off := op.Off % (len(node.data) + 1)
+			return "fs:OK", k.readFile(ino, node, off, min(op.Len, len(node.data)-off))
+		case 3:
+			where := fmt.Sprintf("truncate(unlinked inode %d, %d)", ino, op.Len)
+			sz := uint64(op.Len)
+			o := &fuseops.SetInodeAttributesOp{Inode: ino, Size: &sz}
+			errno, viol := k.call(where, func() error { return k.fs.SetInodeAttributes(ctx, o) })
+			if viol != nil {
+				return "", viol
+			}
+			if errno != 0 {
+				return "", violf("%s: want success, got %s", where, errName(errno))
+			}
+			node.data = truncateTo(node.data, op.Len)
+			if s := attrMismatch(o.Attributes, node); s != "" {
+				return "", violf("%s: returned attributes: %s", where, s)
+			}
+			return "fs:OK", nil
+		}
+		if op.Len == 0 {
+			return "skip", nil
+		}
+		where := fmt.Sprintf("write(unlinked inode %d, off=%d, len=%d)", ino, op.Off, op.Len)
+		oop := &fuseops.OpenFileOp{Inode: ino}
+		errno, viol := k.call("open "+where, func() error { return k.fs.OpenFile(ctx, oop) })
+		if viol != nil {
+			return "", viol
+		}
+		if errno != 0 {
+			return "", violf("%s: open answered %s", where, errName(errno))
+		}
+		data := hx.Expand(op.Seed, op.Len, 0, 16)
+		wo := &fuseops.WriteFileOp{Inode: ino, Handle: oop.Handle, Offset: int64(op.Off), Data: data}
+		errno, viol = k.call(where, func() error { return k.fs.WriteFile(ctx, wo) })
+		if viol != nil {
+			return "", viol
+		}
+		if errno != 0 {
+			return "", violf("%s: want success, got %s", where, errName(errno))
+		}
+		node.data = writeAt(node.data, op.Off, data)
+		return "fs:OK", k.closeFile(ino, oop.Handle, where)
+
 	case "write", "trunc", "read":
 		ino, node, e, err := x.resolve(comps, op.Fresh)
 		if err != nil || e != 0 {
@@ -530,7 +598,7 @@ func (x *exec) step(op opT) (string, error) {
 		if errno == 0 {
 			delete(pnode.kids, name)
 			child.parent = nil
-			k.orphaned(pino, name)
+			k.orphaned(pino, name, child)
 		}
 		return "fs:" + errName(errno), nil
 
@@ -593,7 +661,7 @@ func (x *exec) step(op opT) (string, error) {
 		}
 		if errno == 0 {
 			if v.dst != nil {
-				k.orphaned(dpIno, v.dn)
+				k.orphaned(dpIno, v.dn, v.dst)
 				if !v.dst.dir {
 					x.res.renameOver = true
 					x.count("rename_over_file")
